@@ -114,6 +114,18 @@ def generate(seed, tier, prop):
         profiles["peg"] = [round(p0 * rng.uniform(0.9, 1.1), 6) for _ in range(T)]
         ctrls.append({"element": "ext_grid", "variable": "p_bar", "element_index": [eg], "profile": ["peg"],
                       "scale_factor": 1.0, "order": 0, "level": 0, "initial_run": False})
+    # supply switched by a profile: a step without any feeder fails before the solver is reached -------
+    if not fault_free and meta["feeders"] and rng.random() < 0.25:
+        ft = meta["feeders"][0][0]
+        fidx = [i for (t_, i) in meta["feeders"] if t_ == ft]
+        names = ["sw%d" % k for k in range(len(fidx))]
+        off = set(rng.sample(range(T), rng.randint(1, 2)))
+        for k, nm in enumerate(names):
+            # (with two feeders the second one sometimes stays on: partially supplied instead of dead)
+            profiles[nm] = [not (t_ in off and (k == 0 or rng.random() < 0.7)) for t_ in range(T)]
+        ctrls.append({"element": ft, "variable": "in_service", "element_index": fidx, "profile": names,
+                      "scale_factor": 1.0, "order": rng.choice([-1, 0, 1]), "level": rng.choice([-1, 0, 0, 1]),
+                      "initial_run": False})
     # infeasible steps -------------------------------------------------------------------------
     bad_steps = []
     if not fault_free and ctrls and rng.random() < 0.6:
@@ -199,7 +211,8 @@ def _step_values(trace, t):
         names = c["profile"] if isinstance(c["profile"], list) else [c["profile"]]
         for i, nm in zip(idx, names):
             if nm in trace["profiles"] and t < len(trace["profiles"][nm]):
-                out.append((c["element"], i, c["variable"], trace["profiles"][nm][t] * c["scale_factor"]))
+                v = trace["profiles"][nm][t]
+                out.append((c["element"], i, c["variable"], v if isinstance(v, bool) else v * c["scale_factor"]))
     return out
 
 
